@@ -420,6 +420,29 @@ class Program:
             raise AnalysisError(f"anchor function {qualname} not found in {self.root}")
         return self.functions[qualname]
 
+    def implementation(self, qualname):
+        """The function that does the work of ``qualname``: itself, or - when its body is only
+        ``return super().<same name>(<its own parameters>)`` - the inherited implementation (followed transitively);
+        for a method that the class no longer defines at all, the inherited one."""
+        if qualname not in self.functions:
+            cq, _, name = qualname.rpartition(".")
+            if cq in self.classes:
+                m = self.lookup_method(self.classes[cq], name)
+                if m is not None:
+                    return self.implementation(m.qualname)
+            raise AnalysisError(f"anchor function {qualname} not found in {self.root}")
+        fn = self.functions[qualname]
+        body = [s for s in fn.body if not (isinstance(s, ast.Expr) and isinstance(s.value, ast.Constant))]
+        if fn.cls is not None and len(body) == 1 and isinstance(body[0], ast.Return) and isinstance(body[0].value, ast.Call):
+            c = body[0].value
+            f = c.func
+            if isinstance(f, ast.Attribute) and f.attr == fn.name and isinstance(f.value, ast.Call) and isinstance(f.value.func, ast.Name) and f.value.func.id == "super" \
+                    and not c.keywords and [getattr(a, "id", None) for a in c.args] == [p for p in fn.positional_params if p != "self"]:
+                for base in fn.cls.mro[1:]:
+                    if fn.name in base.methods:
+                        return self.implementation(base.methods[fn.name].qualname)
+        return fn
+
     def cls(self, qualname):
         if qualname not in self.classes:
             raise AnalysisError(f"anchor class {qualname} not found in {self.root}")
